@@ -283,7 +283,8 @@ func (tm *termer) render(v ssa.Value) *Term {
 		// a field of a local struct that is assigned exactly once (struct literal): the assigned value
 		if al, ok := v.X.(*ssa.Alloc); ok {
 			if fv := singleFieldStore(al, v.Field); fv != nil {
-				return &Term{Op: "ref", Args: tm.args(fv)}
+				// keep the field identity (distinct fields assigned from look-alike calls stay distinct); the argument is the assigned value
+				return &Term{Op: "field:" + fieldName(v.X.Type(), v.Field), Args: []*Term{{Op: "ref", Args: tm.args(fv)}}}
 			}
 		}
 		return &Term{Op: "field:" + fieldName(v.X.Type(), v.Field), Args: []*Term{tm.deref(v.X)}}
